@@ -141,7 +141,7 @@ extra11 = {
 extra15 = {
  "C03": "; a repository of another network is created first in the process",
  "C04": "; Cancel twice and Stop followed by Cancel at every ProcessTx call",
- "C06": "; back pressure: 1010 deliveries while the processor's first call takes 11 s (hand-over channel of 1000)",
+ "C06": "; two waiting announcers polled at the same time by two threads after the timeout; back pressure: 1010 deliveries while the processor's first call takes 11 s (hand-over channel of 1000)",
  "C12": "; six-header histories over two unit-work slots with a mark before the Save / Clean that is stopped",
  "C08": "; seven-header histories (reorganisations between a branch of a branch and an unrelated later fork)",
  "C10": "; a Clean whose 1st .. 6th storage call fails (reports unchanged, later submissions follow the reference tree)",
